@@ -9,5 +9,5 @@ import "gonum.org/v1/gonum/graph"
 func simOrderNodes([]graph.Node) {}
 
 // simYield is a no-op unless the package is built with the verif tag.
-func simYield() {}
+func simYield()                           {}
 func simAccess(interface{}, bool, string) {}
